@@ -186,6 +186,31 @@ let c_ccase = function
         cc_exits = c_list c_nat exits; cc_fns = c_nat fns }
   | _ -> fail_sx "ccase"
 
+let c_taskarg = c_opt (c_pair c_str c_bool)
+let c_gop = function
+  | C ("GAdd", [t]) -> GAdd (c_taskarg t)
+  | C ("GDep", [t; deps]) -> GDep (c_taskarg t, c_list c_taskarg deps)
+  | C ("GRetries", [t; n]) -> GRetries (c_taskarg t, c_z n)
+  | _ -> fail_sx "gop"
+let c_outcome = function A "ONil" -> ONil | A "OErr" -> OErr | A "OSkipParents" -> OSkipParents | _ -> fail_sx "outcome"
+let c_oevent = function
+  | C ("OEnter", [v; k]) -> OEnter (c_str v, c_nat k)
+  | C ("OExit", [v; k; r]) -> OExit (c_str v, c_nat k, c_outcome r)
+  | A "OCancel" -> OCancel
+  | A "OQuiet" -> OQuiet
+  | _ -> fail_sx "oevent"
+let c_gerr = function
+  | A "XNilTask" -> XNilTask | A "XMissingID" -> XMissingID | A "XCycle" -> XCycle | A "XCancel" -> XCancel
+  | C ("XMissingFn", [x]) -> XMissingFn (c_str x) | C ("XTask", [x]) -> XTask (c_str x) | C ("XSkipped", [x]) -> XSkipped (c_str x)
+  | C ("XDupDep", [a; b]) -> XDupDep (c_str a, c_str b)
+  | _ -> fail_sx "gerr"
+let c_gcase = function
+  | C ("mkGCase", [ops; serial; cap; dot; dfs; evs; isnil; res; hang]) ->
+      { gc_ops = c_list c_gop ops; gc_serial = c_bool serial; gc_cap = c_n cap; gc_dot = c_str dot;
+        gc_dfs = c_opt (c_list c_str) dfs; gc_events = c_list c_oevent evs; gc_nil = c_bool isnil;
+        gc_result = c_list c_gerr res; gc_hang = c_bool hang }
+  | _ -> fail_sx "gcase"
+
 let c_dcase = function
   | C ("mkDCase", [base; ran; err; writer; help]) ->
       { d_base = c_case base;
@@ -311,6 +336,10 @@ let () =
               let c = c_case sx in
               if check_case mask c then ()
               else begin incr bad; Printf.printf "MISMATCH %d %s\n" !i (show_view c) end
+          | C ("mkGCase", _) as sx ->
+              let c = c_gcase sx in
+              if check_gcase c then ()
+              else begin incr bad; Printf.printf "MISMATCH %d dag reason=%d\n" !i (int_of_nat (explain_gcase c)) end
           | C ("mkCCase", _) as sx ->
               let c = c_ccase sx in
               if check_ccase c then ()
